@@ -39,6 +39,7 @@ type WFOpts struct {
 	SingleInj  bool
 	NoExtras   bool
 	NoVariadic bool
+	Names      int // percentage of programs passed through the adversarial naming layer
 }
 
 type wfBuilder struct {
@@ -67,6 +68,10 @@ func GenWF(o WFOpts) *rapid.Generator[*Spec] {
 	return rapid.Custom(func(t *rapid.T) *Spec {
 		b := &wfBuilder{t: t, o: o, s: &Spec{ImportAlias: map[int]string{}}, basic: map[string]bool{}}
 		b.build()
+		b.s.JointSets = b.pct(20, "jointsets")
+		if o.Names > 0 && b.pct(o.Names, "names") {
+			ApplyNames(t, b.s)
+		}
 		return b.s
 	})
 }
